@@ -35,6 +35,15 @@ func (u *Unit) Run() {
 	}
 	for _, fv := range fn.FreeVars {
 		v := u.freshVal(st, "fv_"+fv.Name(), fv.Type())
+		if _, isPtr := fv.Type().Underlying().(*types.Pointer); isPtr {
+			// captured variables are cells: never nil, pairwise distinct
+			st.assume(fmt.Sprintf("(not (= %s 0))", v.Terms[0]))
+			for _, o := range fr.bind {
+				if len(o.Terms) == 1 && types.Identical(o.T, v.T) {
+					st.assume(fmt.Sprintf("(not (= %s %s))", v.Terms[0], o.Terms[0]))
+				}
+			}
+		}
 		fr.bind = append(fr.bind, v)
 	}
 	u.topParams = fr.params
@@ -44,12 +53,10 @@ func (u *Unit) Run() {
 	u.topEntry = entry
 	env := u.contractEnv(st, fr, u.contract, fr.params, fr.bind, nil, entry)
 	for _, c := range u.contract.Requires {
-		t, err := u.evalBool(st, env, c.Expr)
-		if err != nil {
+		if err := u.assumeClause(st, env, c.Expr); err != nil {
 			u.fail(fmt.Sprintf("%s: requires %q: %v", c.Where, c.Src, err))
 			continue
 		}
-		st.assume(t)
 	}
 	// snapshot after preconditions for old()
 	*entry = *st.clone()
@@ -179,10 +186,12 @@ func (u *Unit) exec(st *State, fr *Frame, instr ssa.Instruction) bool {
 		u.execMakeSlice(st, fr, in)
 	case *ssa.MakeMap:
 		r := u.newRef(st, "map")
+		st.assume(fmt.Sprintf("(= (reftype %s) %d)", r, u.refTag(in.Type())))
 		u.mapInit(st, in.Type(), r)
 		fr.regs[in] = Val{T: in.Type(), Terms: []Term{r}}
 	case *ssa.MakeChan:
 		r := u.newRef(st, "chan")
+		st.assume(fmt.Sprintf("(= (reftype %s) %d)", r, u.refTag(in.Type())))
 		sz := u.val(st, in.Size).Terms[0]
 		u.chanInit(st, r, sz)
 		fr.regs[in] = Val{T: in.Type(), Terms: []Term{r}}
@@ -290,6 +299,7 @@ func (u *Unit) execAlloc(st *State, fr *Frame, in *ssa.Alloc) {
 		return
 	}
 	r := u.newRef(st, "new")
+	st.assume(fmt.Sprintf("(= (reftype %s) %d)", r, u.refTag(in.Type())))
 	if at, ok := et.Underlying().(*types.Array); ok {
 		// backing store for a slice: elements zeroed
 		for _, l := range u.eng.leavesOf(at.Elem()) {
@@ -332,6 +342,7 @@ func (u *Unit) execIndexAddr(st *State, fr *Frame, in *ssa.IndexAddr) {
 	case *types.Slice:
 		b, o, l, _ := sliceParts(xv)
 		u.oblige(st, "index", "", fmt.Sprintf("(and (<= 0 %s) (< %s %s))", iv, iv, l), in.Pos(), "index in range", nil, "")
+		u.instantiate(st, iv)
 		idx := u.define(st, "ix", "Int", fmt.Sprintf("(+ %s %s)", o, iv))
 		fr.regs[in] = u.ptrVal(st, in.Type(), &Ptr{Kind: PElem, Ref: b, Idx: idx, Root: xt.Elem()})
 	case *types.Pointer:
